@@ -312,7 +312,9 @@ def campaign(run, tier: str, prefix: str) -> None:
         deep = [h for h in hdrs if h[2].startswith('deep')]
         rng.shuffle(rest)
         rng.shuffle(deep)
-        hdrs = top + rest[:250] + deep[:40]
+        obs = [h for h in hdrs if h[2] == 'obscolon' and (
+            h[1] == 'plain' or T.hdr_variants((h[0], h[1], 'top')) > 1)]
+        hdrs = top + obs + rest[:250] + deep[:40]
     else:
         run.cov['exhaustive'] = True
     items = []
@@ -370,7 +372,7 @@ def campaign(run, tier: str, prefix: str) -> None:
         m = meta[i - 1]
         mine = clause.startswith(prefix)
         toks = m['tokens']
-        if m['kind'] == 'message' and len(toks) == 3 and toks[2] in ('top', 'part', 'nested', 'deepmulti', 'deeprfc'):
+        if m['kind'] == 'message' and len(toks) == 3 and toks[2] in ('top', 'part', 'nested', 'deepmulti', 'deeprfc', 'obscolon'):
             nontriv = toks[1] not in plain_vals
         else:
             nontriv = m['kind'] == 'imap-mutated-template' or m['kind'].startswith('duo-') or any(
